@@ -291,7 +291,9 @@ Fixpoint last_svc_end (h : N) (l : list svc) : N :=
 Definition update_at (p : profile) (idx : nat) : profile :=
   match nth_error (p_svcs p) idx with
   | None => p
-  | Some s =>
+  | Some s0 =>
+      (* [service.handle = service.handle]: the updated service is laid out again first *)
+      let s := svc_set_handle (s_handle s0) s0 in
       let B' := shift_services (s_end s) (skipn (S idx) (p_svcs p)) in
       mkP (p_start p) (last_svc_end (s_end s) B' + 1) (p_fresh p)
           (firstn idx (p_svcs p) ++ s :: B')
@@ -310,6 +312,19 @@ Fixpoint remove_nth {A} (n : nat) (l : list A) : list A :=
   | S m, x :: r => x :: remove_nth m r
   end.
 
+(** [Characteristic.add_descriptor] *)
+Definition chr_add_desc (c : chr) (d : desc) : chr :=
+  let d' := if d_handle d =? 0 then set_d_handle (c_end c + 1) d else d in
+  mkC (c_id c) (c_handle c) (c_vhandle c) (N.max (d_handle d') (c_end c)) (c_uuid c) (c_props c)
+      (c_sec c) (c_value c) (c_descs c ++ [d']).
+
+Fixpoint map_nth {A} (f : A -> A) (n : nat) (l : list A) : list A :=
+  match n, l with
+  | _, [] => []
+  | O, x :: r => f x :: r
+  | S m, x :: r => x :: map_nth f m r
+  end.
+
 Inductive exn := KeyError | IndexError | TypeError | ValueError | InvalidHandleValueException
                | OutOfModel.
 Inductive outcome := Done (p : profile) | Raised (e : exn).
@@ -319,6 +334,7 @@ Inductive op :=
 | OpUpdate (i : nat)                (* update_service(services[i]) *)
 | OpAddChar (i : nat) (cd : cdef)   (* services[i].add_characteristic(Characteristic(..)); update_service *)
 | OpDelChar (i j : nat)             (* services[i].remove_characteristic(chars[j]); update_service *)
+| OpAddDesc (i j : nat) (dd : ddef) (* services[i].chars[j].add_descriptor(..); update_service(services[i]) *)
 | OpRemove (i : nat).               (* remove_service(services[i]) *)
 
 Definition set_c_id (n : N) (c : chr) : chr :=
@@ -362,6 +378,12 @@ Definition step (p : profile) (o : op) : outcome :=
                                                   (set_chars s (remove_nth j (s_chars s)))) (p_fresh p)) i)
           else Done p
       end
+  | OpAddDesc i j dd =>
+      match nth_error (p_svcs p) i with
+      | None => Done p
+      | Some s => Done (update_at (set_svc_at p i (set_chars s (map_nth (fun c => chr_add_desc c (desc_of_def dd)) j (s_chars s)))
+                                              (p_fresh p)) i)
+      end
   | OpRemove i => remove_at p i
   end.
 
@@ -385,19 +407,6 @@ Definition build (start : N) (sds : list sdef) : profile := build_from 0 start s
     to them, descriptors are added to characteristics that are already attached (the
     service's own end handle is then stale), include definitions are added, in any order and
     interleaved with the operations on the profile; [HRegister] hands one to add_service. *)
-
-(** [Characteristic.add_descriptor] *)
-Definition chr_add_desc (c : chr) (d : desc) : chr :=
-  let d' := if d_handle d =? 0 then set_d_handle (c_end c + 1) d else d in
-  mkC (c_id c) (c_handle c) (c_vhandle c) (N.max (d_handle d') (c_end c)) (c_uuid c) (c_props c)
-      (c_sec c) (c_value c) (c_descs c ++ [d']).
-
-Fixpoint map_nth {A} (f : A -> A) (n : nat) (l : list A) : list A :=
-  match n, l with
-  | _, [] => []
-  | O, x :: r => f x :: r
-  | S m, x :: r => x :: map_nth f m r
-  end.
 
 Inductive hop :=
 | HNew (primary : bool) (u : uuid)          (* PrimaryService(uuid) / SecondaryService(uuid), pending *)
